@@ -185,7 +185,7 @@ def _table(case):
         h5 = h5py.File(path, "r")
         clr = cooler.Cooler(h5[group])                                    # opened from an h5py handle
         clr_uri = cooler.Cooler(path if group == "/" else f"{path}::{group}")  # opened by path / URI
-        df = gen.bins_df(bins)
+        df = gen.bins_df(bins, plain=True)      # the labels of the rows these two fetchers return are read as bin ids
         cs = clr.chromsizes
         gseg = util.GenomeSegmentation(cs, df)
         grouped = df.groupby("chrom", observed=True)
